@@ -104,7 +104,7 @@ RULES = {
     "ADMISSIBLE-SEEDED": _mod("rules2", "rule_admissible", True),
     "ONE-PER-PAIR": _mod("rules2", "rule_one_per_pair"),
     "NONDET": _mod("rules2", "rule_nondet"),
-    "RELAX-AGREE": _mod("relax", "rule_relax_agree"),
+    "RELAX-AGREE": _mod("bfm", "rule_relax_agree"),
     "FW-SHAPE": _mod("relax", "rule_fw_shape"),
     "LAYOUT": _mod("relax", "rule_layout"),
     "TERMINATE": _mod("relax", "rule_terminate"),
